@@ -44,6 +44,24 @@ pub fn run(r: &mut Report) {
         r.case(c.id, json!({"steps": {"a": "key2", "b": "key3"}, "link_a_signed_by": c.signer_a, "link_b_signed_by": c.signer_b, "link_b_file_prefix_of": c.file_b, "tampered": c.tamper}),
                if c.expect_ok { "Ok" } else { "Err" }, match &res { Ok(v) => verdict(v), Err(p) => format!("panic: {}", p) }, ok);
     }
+    // one functionary cannot fill a second functionary's slot with a bogus signature entry naming the other key
+    {
+        let d = tmpdir();
+        let l2 = layout(vec![step("a", 2, &[&ka, &kb], allow_all(), allow_all())], vec![], &[&ka, &kb], 30);
+        let lay = signed_layout(&l2, &[&owner]);
+        let genuine = signed_link(&la, &[&kb]);
+        write_link(d.path(), "a", kb.key_id(), &genuine);
+        // same block plus an entry that merely names ka's key id (garbage bytes), filed under ka's prefix
+        let mut v = serde_json::to_value(&genuine).unwrap();
+        let ka_id = serde_json::to_value(ka.key_id()).unwrap();
+        let bogus = json!({"keyid": ka_id, "sig": "00".repeat(64)});
+        v["signatures"].as_array_mut().unwrap().insert(0, bogus);
+        let forged: in_toto::models::Metablock = serde_json::from_str(&v.to_string()).unwrap();
+        write_link(d.path(), "a", ka.key_id(), &forged);
+        let res = no_panic(|| in_toto_verify(&lay, owner_keys(&[&owner]), d.path().to_str().unwrap(), None));
+        r.case("bogus-entry-names-other-functionary", json!({"threshold": 2, "authorised": ["key2", "key3"], "genuine_signer": "key3 only", "file a.<key2>.link": "key3's link + entry {keyid: key2, sig: 00..}"}),
+               "Err", match &res { Ok(v) => verdict(v), Err(p) => format!("panic: {}", p) }, matches!(&res, Ok(v) if v.is_err()));
+    }
     // threshold 0 still needs one authorised link
     {
         let d = tmpdir();
